@@ -1,7 +1,7 @@
 (* C16 — Reflecting and white surfaces become boundary conditions on the right
    surfaces.  Only restatements; proofs are in C16/Proofs.v. *)
 From Coq Require Import List NArith ZArith Bool String Ascii Lia Reals.
-From T4V Require Import Base.Str Base.Scalar C16.Model C16.Proofs C16.Trcl C16.LinkC13 C16.LinkCells.
+From T4V Require Import Base.Str Base.Scalar C16.Model C16.Proofs C16.Trcl C16.LinkC13 C16.LinkCells C16.LinkClasses C16.LinkAll.
 From T4V Require C13.Model C01.Model C01.Spec C01.ProofsTree C01.ProofsPrune C16.LinkC01.
 Import ListNotations.
 Open Scope string_scope.
@@ -737,4 +737,83 @@ Proof.
     split; [apply Hpt; left; reflexivity|];
     split; [apply Hpt; right; reflexivity|];
     split; [apply Hag; auto|]; split; reflexivity).
+Qed.
+
+(* ======================================================================== *)
+(* C16's descriptor CLASSES against C13's REAL descriptors: when the classes are
+   an injective naming of real descriptors, C16's representative (smallest
+   number of the same class) is the image under C13's renumbering of the table
+   read through that naming - also when the table holds further, larger-numbered
+   surfaces (the union helper planes, which may be merged into a user surface).
+   The two models of the de-duplication are the same function on the surface
+   numbers of the dictionary. *)
+Theorem C16_rep_is_C13_renumbering_linked :
+  forall (cls_desc : N -> C13.Model.desc R),
+  (forall a b, cls_desc a = cls_desc b -> a = b) ->
+  forall (nb : numbering) (extra : list (Z * C13.Model.desc R)) (k c : N),
+  NoDup (map fst nb) ->
+  NoDup (map fst (surfs_of cls_desc nb ++ extra)) ->
+  (forall x d k0 c0, In (x, d) extra -> In (k0, c0) nb -> (Z.of_N k0 < x)%Z) ->
+  dict_get k nb = Some c ->
+  rep13 (ren_of RS false (surfs_of cls_desc nb ++ extra)) k = rep true nb k.
+Proof. exact rep_is_c13. Qed.
+Print Assumptions C16_rep_is_C13_renumbering_linked.
+
+(* everything of C16's own: the surface table handed to C13 is C16's numbering
+   [number_items t] read through the naming (plus the helper planes), the
+   matching handed to C01's conversion is C16's [matching_of t], the block is
+   the executed [merge_entries] with C16's renumbering on classes.  From the
+   cell cards ([bounds_cell]) to: the representative [rep] of the flagged surface
+   is used by a volume of the pruned table, has exactly one entry of the flag's
+   kind, and is kept with the real descriptor that names the flagged surface's
+   class. *)
+Theorem C16_bc_designates_present_same_locus_all_linked :
+  forall (cls_desc : N -> C13.Model.desc R),
+  (forall a b, cls_desc a = cls_desc b -> a = b) ->
+  forall (t : table) (skip : bool) (u0 u1 : Z) (h0 h1 : C13.Model.desc R),
+  NoDup (map fst t) ->
+  (forall k c, In (k, c) (number_items t) -> (0 < Z.of_N k < u0)%Z /\ (Z.of_N k < u1)%Z) ->
+  u0 <> u1 -> (0 < u0)%Z -> (0 < u1)%Z ->
+  forall (cells : C01.Model.dict C01.Model.cell) (fuel : nat) (todo : list Z) (cnt0 : Z)
+         (s' : C01.Model.st) (d' : C01.Model.dict C01.Model.vol),
+  NoDup todo -> (forall k, In k todo -> (k <= cnt0)%Z) ->
+  C01.Model.convert_cells fuel cells (matching01 t) u0 u1 todo (C01.Model.mkSt cnt0 [] [] [])
+    = C01.Model.Ok s' ->
+  C01.Model.prune u0 u1 (C16.LinkC01.rn_of (surfs_all cls_desc t u0 u1 h0 h1) skip)
+    (C01.Model.vols s') = C01.Model.Ok d' ->
+  forall (l bcs : list (kind * N)),
+  bc_entries t = Ok l ->
+  merge_entries (negb skip) (number_items t) (map Z.to_N (C16.LinkC01.surf_ids d')) l [] = Ok bcs ->
+  forall k e c, In (k, e) t -> (e_flag e = "*" \/ e_flag e = "+") ->
+  C16.LinkC01.bounds_cell (surfs_all cls_desc t u0 u1 h0 h1) skip cells (matching01 t) u0 u1 todo
+    (Z.of_N k) c ->
+  let k' := rep (negb skip) (number_items t) k in
+  In (Z.of_N k') (C16.LinkC01.surf_ids d') /\
+  In (kind_of (e_flag e), k') bcs /\ count_key k' bcs = 1%nat /\
+  In (Z.of_N k', cls_desc (e_first e)) (kept (surfs_all cls_desc t u0 u1 h0 h1) skip).
+Proof.
+  intros cls_desc Hinj t skip u0 u1 h0 h1 Hnd Hab Hne H0 H1 cells fuel todo cnt0 s' d'
+         Htn Htl Hconv Hprune l bcs Hl Hb k e c Hin Hf Hbc.
+  exact (all_linked_designates cls_desc Hinj t Hnd skip u0 u1 h0 h1 Hab Hne H0 H1 cells fuel todo
+           cnt0 s' d' Htn Htl Hconv Hprune l bcs Hl Hb k e c Hin Hf Hbc).
+Qed.
+Print Assumptions C16_bc_designates_present_same_locus_all_linked.
+
+(* non-vacuity: with the naming "class n = descriptor of type n without
+   parameters" the table, surfaces, matching and helper planes of
+   C16_example_cells_linked ARE the instances this theorem speaks about *)
+Example C16_example_all_linked :
+  (forall a b, dR a = dR b -> a = b) /\
+  surfs_all dR ex_table 8 9 (dR 3) (dR 4) = ex_surfs /\
+  matching01 ex_table = ex_matching /\
+  (forall k c, In (k, c) (number_items ex_table) -> (0 < Z.of_N k < 8)%Z /\ (Z.of_N k < 9)%Z) /\
+  merge_entries true (number_items ex_table) (map Z.to_N [2; 1]%Z)
+    [(Reflection, 2%N); (Reflection, 3%N)] [] = Ok [(Reflection, 2%N)].
+Proof.
+  split; [intros a b H; inversion H; reflexivity|].
+  split; [vm_compute; reflexivity|].
+  split; [vm_compute; reflexivity|].
+  split; [|vm_compute; reflexivity].
+  intros k c H. vm_compute in H.
+  repeat (destruct H as [H|H]; [inversion H; subst; lia|]). destruct H.
 Qed.
